@@ -50,11 +50,11 @@ const (
 )
 
 type c05Case struct {
-	Root   int       `json:"root"`  // the subject (root issuer)
-	Links  []c05Link `json:"links"` // root first
-	Expand int       `json:"expand"`
-	Reduced bool     `json:"reduced"` // reduced link alphabet for deep chains
-	Fields []int     `json:"fields,omitempty"` // replay only: one specific irrelevant-field assignment
+	Root    int       `json:"root"`  // the subject (root issuer)
+	Links   []c05Link `json:"links"` // root first
+	Expand  int       `json:"expand"`
+	Reduced bool      `json:"reduced"`          // reduced link alphabet for deep chains
+	Fields  []int     `json:"fields,omitempty"` // replay only: one specific irrelevant-field assignment
 }
 
 func (c *c05Case) Weight() int { return len(c.Links) }
@@ -327,7 +327,9 @@ func c05PolicySub() *engine.Sub {
 	return &engine.Sub{
 		Name: "satisfied-policy-universe",
 		Rule: "rule-conforming chains of 1..2 links (quick; 3 thorough) whose policies are drawn from 31 statements that are true for the invocation's arguments under the classical reading - one per operator, selector form (field, nested field, index, negative index, slice, optional, iterator) and pattern feature (literal, prefix/suffix star, escapes without and with stars, escaped backslash); every such invocation must be allowed; non-trivial = all",
-		Bound: func(t string) string { return fmt.Sprintf("31 true statements per link, chains of 1..%d links, leaf policy of 1 or 2 statements", tierN(t, 2, 3)) },
+		Bound: func(t string) string {
+			return fmt.Sprintf("31 true statements per link, chains of 1..%d links, leaf policy of 1 or 2 statements", tierN(t, 2, 3))
+		},
 		Setup: func(string) error { chainInit(); return nil },
 		Gen: func(tier string, emit func(any) bool) {
 			n := len(stmts)
